@@ -102,6 +102,8 @@ def main():
     for r in results:
         r["tier"] = a.tier
         store[r["id"]] = r
+    ids = {m["id"] for m in M}
+    store = {k: v for k, v in store.items() if k in ids}
     for k, r in store.items():
         if r["status"].startswith("MISSED") and k in EQUIVALENT:
             r["status"] = "MISSED (equivalent mutant: " + EQUIVALENT[k] + ")"
